@@ -46,7 +46,9 @@ Theorem C10_field_is_utf8 : forall orig lim b, wf_text orig -> field_of orig lim
 Proof. exact field_is_utf8. Qed.
 Print Assumptions C10_field_is_utf8.
 
-(* "or is uniformly wrapped when the Tub is configured to hide remote exception types" *)
+(* "or is uniformly wrapped when the Tub is configured to hide remote exception types": for EVERY transmitted failure,
+   including one whose own remote class is RemoteException (raised by the callee, or relayed by a middle party that hides
+   types too); that wrap_remote_failure has no exception for such failures is read from the source *)
 Theorem C10_faithful_delivery : forall expose s,
   (expose = true -> deliver expose s = Copied s) /\ (expose = false -> deliver expose s = Wrapped s).
 Proof. exact deliver_spec. Qed.
@@ -136,3 +138,12 @@ Print Assumptions C10_receiver_rejections_contained.
 Theorem C10_type_name_identified : forall t, In type_name_separator t -> requal type_name_separator t = t.
 Proof. intros t. apply type_name_identified. Qed.
 Print Assumptions C10_type_name_identified.
+
+(* "an argument ... that cannot be [de]serialized ... on either side ... fails exactly that call ... every other outstanding
+   or later call is unaffected", arguments that become ready (or fail) asynchronously on the callee: whatever the readiness
+   outcome of each delivery in the callee's inbound queue, every delivery is handled exactly once and in order -- run if its
+   arguments resolved, answered with an error if they did not.  That the waiting flag is cleared on failure too is read
+   from Broker.doNextCall. *)
+Theorem C10_deliveries_all_handled : forall q, drain false q = map expected_handling q.
+Proof. exact deliveries_all_handled. Qed.
+Print Assumptions C10_deliveries_all_handled.
